@@ -231,8 +231,10 @@ def c02(lines, out):
             sends[t[3]] = ('pub', t[1], None, t[2], t[4])
         if t[0] == 'burst' and isint(r.result):
             # count tells in a row with consecutive payloads
-            for i in range(int(t[5])):
-                sends['p%d' % (int(t[3][1:]) + i)] = ('tell', t[1], t[2], '-', t[4])
+            # (each call either was accepted or refused; when only some were, which ones is not known: 'maybe')
+            k, n = int(r.result), int(t[5])
+            for i in range(n if k > 0 else 0):
+                sends['p%d' % (int(t[3][1:]) + i)] = ('tell', t[1], t[2], '-', t[4] if k == n else ('maybe' if t[4] == '1' else '0'))
     seen = set()
     freed = set()
     for o in tr.out:
@@ -241,12 +243,19 @@ def c02(lines, out):
             if p in freed:
                 v.append(('autofree_once', 'payload %s released twice' % p))
             freed.add(p)
-            if p not in sends or sends[p][4] != '1':
+            if p not in sends or sends[p][4] not in ('1', 'maybe'):
                 v.append(('autofree_only', 'payload %s released but it was not sent with the auto-free flag' % p))
         elif o.startswith('INVOKE on_evt'):
             for k, f in parse_invoke(o)[4]:
                 if k == 'ps' and f[3] == '0' and f[2] in freed:
                     v.append(('autofree_after_use', 'payload %s handed to a handler after it was released' % f[2]))
+    lk = leakcheck_of(out)
+    if lk is not None and not tr.fault:
+        # the context is gone and every reference dropped: every auto-free payload that was accepted has had its last recipient
+        for p, snd in sends.items():
+            if snd[4] == '1' and p not in freed:
+                v.append(('autofree_released', 'payload %s was sent with the auto-free flag and never released, although everything was torn down' % p))
+                break
     for (h, topic, sender, p, sys, ud, r) in deliveries(tr):
         if sys == '1':
             continue
@@ -361,6 +370,9 @@ def c16(lines, out):
                 st = pm.get(t[1], {}).get('state')
                 if st is not None and st != 'R':
                     v.append(('running_only', 'stash accepted in state %s' % st))
+                if evs[i][0] == 'fd':
+                    # descriptor events are always high priority (enforced at registration, whatever flags were given)
+                    v.append(('never_high', '%s: a descriptor event (high priority) was accepted for stashing' % r.op))
         if t[0] == 'unstash' and isint(r.result) and int(r.result) >= 0:
             exp = pending.pop(id(r), None)
             if exp is None:
@@ -488,6 +500,7 @@ def c03(lines, out):
     v = common(tr)
     owner = {}
     ever = set()
+    tm_live, tm_gone = set(), set()
     last_state = {}
     quit_code = None
     for kind, inv, r in tr.events:
@@ -495,6 +508,8 @@ def c03(lines, out):
             cb, hd, h, stt, evs = parse_invoke(inv)
             if cb == 'on_evt' and r.op.split()[0] != 'unstash' and not any(x.op.split()[0] == 'stash' for x in tr.recs):
                 for k, f in evs:
+                    if k == 'tmr' and ('tmr', h, f[0]) in tm_gone and ('tmr', h, f[0]) not in tm_live:
+                        v.append(('registered_only', 'event of timer %s delivered to %s although it was deregistered' % (f[0], h)))
                     if k == 'fd':
                         o = owner.get(('fd', f[0][1:]))
                         if o is None and ('fd', f[0][1:]) in ever:
@@ -509,6 +524,8 @@ def c03(lines, out):
             ever.add(('fd', str(100 + int(t[2][1:])) if 'd' in t[3] else t[2][1:]))
             if 'o' in t[3]: ever.discard(('fd', str(100 + int(t[2][1:])) if 'd' in t[3] else t[2][1:]))   # (a one-shot leaves by itself)
         if t[0] == 'dereg_fd' and r.result == '0': owner.pop(('fd', t[2][1:]), None)
+        if t[0] == 'reg_tmr' and r.result == '0': tm_live.add(('tmr', t[1], t[2])); tm_gone.discard(('tmr', t[1], t[2]))
+        if t[0] == 'dereg_tmr' and r.result == '0': tm_gone.add(('tmr', t[1], t[2])); tm_live.discard(('tmr', t[1], t[2]))
         if t[0] == 'quit' and r.result == '0': quit_code = int(t[1]) % 256
         if any(x == 'BATCH !quit' for x in r.out): quit_code = 77
         if t[0] in ('dispatch', 'loop') and r.prev_dump and r.depth == 0:
